@@ -317,8 +317,13 @@ class Check:
 def main_wrapper(fn):
     try:
         rc = fn()
-    except (Infra, subprocess.TimeoutExpired) as e:
-        log("INFRASTRUCTURE FAILURE (exit 2, not a verdict): " + str(e))
+    except (Infra, subprocess.TimeoutExpired, RecursionError, ValueError, KeyError, IndexError, TypeError, OSError) as e:
+        # (a driver that trips over what the code under test produced - a record it cannot decode, a missing field - has no verdict of
+        # its own either: exit 2, unless real violations were registered before)
+        import traceback
+        log("INFRASTRUCTURE FAILURE (exit 2, not a verdict): %s: %s" % (type(e).__name__, str(e)[:2000]))
+        if not isinstance(e, (Infra, subprocess.TimeoutExpired)):
+            log(traceback.format_exc()[-1500:])
         rc = 2
         # violations registered before the failing stage are observations of the real code and stay a verdict
         for chk in CURRENT:
